@@ -339,6 +339,7 @@ func checkC01(p *core.Program, r *core.Report) {
 		"O1.6": "Merkle gadget: fold from leaf over levels 1..len-1 with step{running, seq[i], bits[i-1]}; step hashes the two orderings of {running, sibling} by a boolean bit",
 		"O1.7": "no NewHint/Commit/Defer and no API handed to code outside the repository in definition code",
 		"O1.11": "imported rule: no state / nondeterminism in construction and definition code (C12 O12.4)",
+		"O1.12": "imported rule: no unsynchronised write to state shared between requests in the proving path (C13 O13.1) — an assignment reused across requests lets one request be proved with another's inputs",
 		"O1.10": "the prover of this circuit (ProveInsertion, its shape validator, their callees) constructs no refusal under a condition on request values",
 		"O1.9": "imported verdict: the input-hash side of the circuit (C03, which imports the comparator rules of C06 and the Keccak layout of C04)",
 		"O1.8": "completeness: in Define, the batch, round, Merkle and step definitions every constraint-introducing API/gadget call is a subterm of the definition's result or of an assert accounted for by O1.2/O1.5/O1.6 or the input-hash binding (C03)",
@@ -491,6 +492,7 @@ func checkInsertionChain(p *core.Program, r *core.Report, ctx *circuitCtx, br *b
 	// O1.11: "for every tree depth and batch size" also quantifies over what was built before in the same process: the
 	// construction code keeps no state (a compiled-circuit cache with a colliding key hands out the circuit of another depth)
 	importRule(p, r, "O1.11", "C12", "O12.4", "construction and definition code is free of state and other nondeterminism sources")
+	importRule(p, r, "O1.12", "C13", "O13.1", "the proving path keeps no unsynchronised shared state: each witness is built from its own request, whatever else is in flight")
 	// O1.10: "every input that meets the relation is accepted" as observed at the prover: the prover of this circuit, its
 	// shape validator and whatever they call refuse nothing on the strength of request *values* (a range test on the start
 	// index or on an index that overflows for the largest depth refuses valid batches the circuit would accept)
